@@ -147,7 +147,17 @@ where
         abort_at,
         global_threads,
     };
-    run_sim(sched.spec(), steps, env, move || {
+    // KMSIM_RUN_TO_BLOCK=1: no preemption -- a task keeps running until it blocks on a
+    // simulated primitive or ends.  The supervisor uses it to tell a run that is stuck for
+    // real from one that only blocks the simulator thread because a task was switched out
+    // while it held a primitive the simulator does not control (a real std lock).
+    static RUN_TO_BLOCK: std::sync::OnceLock<bool> = std::sync::OnceLock::new();
+    let spec = if sched.kind != "replay" && *RUN_TO_BLOCK.get_or_init(|| std::env::var("KMSIM_RUN_TO_BLOCK").is_ok()) {
+        verif_rt::sched::SchedSpec::Sticky { seed: sched.seed, stay: 16 }
+    } else {
+        sched.spec()
+    };
+    let r = run_sim(spec, steps.saturating_mul(STEP_SCALE.with(|c| c.get())), env, move || {
         match std::panic::catch_unwind(std::panic::AssertUnwindSafe(f)) {
             Ok(v) => Ok(v),
             Err(p) => {
@@ -168,7 +178,41 @@ where
                 Err(t)
             }
         }
-    })
+    });
+    if matches!(&r.value, Err(t) if t.contains("exceeded max_steps")) {
+        BUDGET_HIT.with(|c| c.set(true));
+    }
+    r
+}
+
+thread_local! {
+    static STEP_SCALE: std::cell::Cell<usize> = const { std::cell::Cell::new(1) };
+    static BUDGET_HIT: std::cell::Cell<bool> = const { std::cell::Cell::new(false) };
+}
+
+/// Execute a case.  Step budgets are estimates (tier budget plus an allowance per record
+/// and base); "no progress" is a verdict only if it survives a budget 16 times as large:
+/// when some execution of the case runs into its budget, the whole case is executed again
+/// with every budget scaled, and that second outcome is the result.  A livelock never
+/// finishes under any budget and is reported as before; an estimate that was merely too
+/// small for a legitimate workload is not mistaken for one.
+pub fn run_case(engine: &dyn Engine, case: &Case, sb: &Sandbox) -> Outcome {
+    BUDGET_HIT.with(|c| c.set(false));
+    let o = engine.execute(case, sb);
+    if !BUDGET_HIT.with(|c| c.get()) {
+        return o;
+    }
+    STEP_SCALE.with(|c| c.set(16));
+    BUDGET_HIT.with(|c| c.set(false));
+    let mut o2 = engine.execute(case, sb);
+    STEP_SCALE.with(|c| c.set(1));
+    o2.probe("step_budget_retry_16x", 1);
+    if BUDGET_HIT.with(|c| c.get()) {
+        o2.probe("step_budget_exhausted_at_16x", 1);
+    }
+    o2.execs += o.execs;
+    o2.steps_total += o.steps_total;
+    o2
 }
 
 pub fn write_input(dir: &std::path::Path, stem: &str, records: &[Rec], c: &Container) -> String {
